@@ -357,6 +357,8 @@ def corr_enuc(ctx: Ctx, drv):
 
 def run(ctx: Ctx):
     leanproj.check_theorems(ctx, MODULE, THEOREMS)
+    from .registry import THEOREMS_C01B
+    leanproj.check_theorems(ctx, "PyseqmVerif.Properties.C01b", THEOREMS_C01B)
     drv = leanproj.Driver()
     try:
         try:
